@@ -845,6 +845,20 @@ def malformed3000(mm, rng):
         yield "bond_index_zero", put(j, " ".join(t[:4] + ["0"] + t[5:]))
         yield "bond_nonnumeric", put(j, " ".join(t[:rng.randint(3, 5)] + ["x"] + t[6:]))
         yield "bond_short", put(j, " ".join(t[:rng.randint(2, 5)]))
+    if ib:
+        j = rng.randint(ib[0] + 1, ieb - 1)
+        t = L[j].split()
+        if "ENDPTS=" not in L[j]:
+            yield "bond_to_itself", put(j, " ".join(t[:5] + [t[4]] + t[6:]))
+    if n:
+        j = rng.randint(ia + 1, ia + n)
+        if L[j].split()[3] != "*":
+            v = rng.choice([1, 2, 3, 13, 200])
+            yield "negative_mass", put(j, L[j] + " MASS=-%d" % v)
+            yield "negative_rad", put(j, L[j] + " RAD=-%d" % rng.choice([1, 2, 3]))
+            # only the last written value counts: a negative value followed by a legal one is legal
+            yield "negative_mass_overridden", put(j, re.sub(r" MASS=\d+", "", L[j]) + " MASS=-%d MASS=%d" % (v, v))
+            yield "negative_chg_is_legal", put(j, re.sub(r" CHG=-?\d+", "", L[j]) + " CHG=-%d" % rng.choice([1, 2, 3]))
     last_v30 = find(lambda l: l.startswith(V30))[-1]
     yield "dangling_dash_before_M_END", put(last_v30, L[last_v30] + "-")
     yield "dash_merges_two_lines", put(rng.randint(4, last_v30 - 1), L[rng.randint(4, last_v30 - 1)] + "-")
@@ -869,6 +883,9 @@ def malformed3000(mm, rng):
         t = L[j].split()
         star_ix = [l.split()[2] for l in L[ia + 1:ia + 1 + n + len(mm.stars)] if l.split()[3] == "*"]
         yield "two_star_atoms_bonded", put(j, " ".join(t[:4] + [star_ix[0], star_ix[-1]] + t[6:]))
+        tj = L[j].split()
+        start = tj[5] if tj[4] in star_ix else tj[4]
+        yield "endpts_contains_start_atom", put(j, re.sub(r"ENDPTS=\((\d+) (\d+)", lambda m: "ENDPTS=(%s %s" % (m.group(1), start), L[j]))
         yield "endpts_unknown_index", put(j, re.sub(r"ENDPTS=\((\d+) (\d+)", lambda m: "ENDPTS=(%s %d" % (m.group(1), 10 ** 6 + 7), L[j]))
     yield "version", put(3, L[3].replace("V3000", rng.choice(["V4000", "v3000", "V3000x", "", "V3000 1", "V 3000"])))
     yield "too_few_lines", "\n".join(L[:rng.randint(0, len(L) - 2)])
@@ -920,6 +937,7 @@ def malformed2000(mm, rng):
         yield "bond_unknown_index", put(j, L[j][:3] + "%3d" % min(999, n + rng.randint(1, 5)) + L[j][6:])
         yield "bond_nonnumeric", put(j, L[j][:rng.choice([0, 3, 6])] + "  x" + L[j][rng.choice([3, 6, 9]):])
         yield "bond_line_short", put(j, L[j][:rng.randint(0, 8)])
+        yield "bond_to_itself", put(j, L[j][:3] + L[j][:3] + L[j][6:])
     pl = [i for i, l in enumerate(L) if l[:6] in ("M  CHG", "M  RAD", "M  ISO")]
     if pl:
         j = rng.choice(pl)
@@ -931,6 +949,8 @@ def malformed2000(mm, rng):
         yield "prop_value_garbage", put(j, L[j][:14] + rng.choice([" x ", "1 1", "  -", "+ 1"]) + L[j][17:])
         yield "prop_count_garbage", put(j, L[j][:6] + rng.choice([" x ", "   ", "1 1"]) + L[j][9:])
         yield "prop_shifted_one_column", put(j, L[j][:9] + L[j][10:])
+        # negative radical code / isotope mass is rejected, negative charge is legal
+        yield "prop_negative_value:" + L[j][3:6], put(j, L[j][:14] + "%3d" % -rng.choice([1, 2, 3, 13]) + L[j][17:])
     yield "version", put(3, L[3].replace("V2000", rng.choice(["V1000", "v2000", "", "V2000 x", "V 2000"])))
     yield "too_few_lines", "\n".join(L[:rng.randint(0, len(L) - 2)])
     k = rng.randint(4, len(L) - 1)
@@ -1238,6 +1258,66 @@ def fals_c08(mm, t2, t3):
         if s2 != s3:
             out.append("TUCAN strings differ: V2000 %s / V3000 %s" % (s2, s3))
     return out
+
+
+def fals_c05_text(text):
+    """C05 on the reader side: when the reader accepts `text` (at least one atom), the string the pipeline emits
+    is a sentence of the grammar in canonical layout and the library's own parser accepts it.
+    -> (string | None, problems)"""
+    import validator
+    g, err = read_graph(text)
+    if g is None or g.number_of_nodes() == 0:
+        return None, []
+    try:
+        s = impl.tucan_of(g)
+    except Exception as e:
+        return None, ["pipeline raised %s: %s on a graph the reader returned" % (type(e).__name__, str(e)[:120])]
+    counts = {}
+    for _, d in g.nodes(data=True):
+        counts[d["element_symbol"]] = counts.get(d["element_symbol"], 0) + 1
+    labelled = sum(1 for _, d in g.nodes(data=True) if "mass" in d or "rad" in d)
+    probs = validator.validate(s, counts, g.number_of_edges(), labelled)
+    po = impl.parse_outcome(s)
+    if po[0] != "ok":
+        probs.append("graph_from_tucan does not accept the emitted string %r: %s" % (s[:120], po[0]))
+    return s, probs
+
+
+def c05_reader_stream(run, model):
+    """texts (well-formed spellings and the malformed streams of both formats) through reader -> canonicalize -> serialize"""
+    rng = run.sub_rng("c05/texts")
+    sc = scale_of(run)
+    budget = (500 if run.tier == "quick" else 6000) * sc
+    t_end = time.time() + (60 if run.tier == "quick" else 900)
+    made = [0]
+
+    def one(comp, text, tag):
+        made[0] += 1
+        run.evaluations += 1
+        ok, io = correspond(run, model, comp, text, tag)
+        run.count("C05_text:%s:%s" % (comp, io[0]))
+        if io[0] != "ok":
+            return
+        s, probs = fals_c05_text(text)
+        if s is not None and "/" in s and not s.endswith("/"):
+            run.nontrivial.add(digest(s))
+        if probs:
+            run.falsifier_hits.append({"property": "C05", "what": "text accepted by the reader, emitted string not a canonical sentence [%s]: %s" % (tag, probs[0]),
+                                       "key": "C05:text:" + tag.split(":")[-1],
+                                       "case": {"kind": "C05-text", "text": text}, "extra": {"string": s, "problems": probs[:8]}})
+
+    v3 = mm_stream(run.sub_rng("c05/mm3"), 10 ** 9, v2ok=False, stars=True, nmax=14)
+    v2 = (m for m in mm_stream(run.sub_rng("c05/mm2"), 10 ** 9, v2ok=True, stars=False, nmax=14) if v2ok(m))
+    while made[0] < budget and time.time() < t_end:
+        mm = next(v3)
+        one("K1", render3000(mm, rng, **random_knobs3(rng)), "render3000")
+        for name, text in malformed3000(mm, rng):
+            one("K1", text, "malformed3000:" + name)
+        mm = next(v2)
+        one("K2", render2000(mm, rng, **random_knobs2(rng)), "render2000")
+        for name, text in malformed2000(mm, rng):
+            one("K2", text, "malformed2000:" + name)
+    return made[0]
 
 
 def sample(run, obj):
@@ -1836,6 +1916,8 @@ def replay_text(run, model, hit):
         probs, _, _ = fals_c09_graph(graph_of_json(case["graph"]))
     elif kind == "C09-pipeline":
         probs, _ = fals_c09_pipeline(case["tucan"], case.get("calc", False))
+    elif kind == "C05-text":
+        _, probs = fals_c05_text(case["text"])
     elif kind == "C06":
         mm = MM.from_json(case["mm"])
         probs = fals_c06_pair(case["text"], case["text_b"], impl.tucan_of(impl.graph_of(am_of_mm(mm))))
